@@ -86,9 +86,9 @@ Qed.
 Theorem data_prog_counts_on_failure :
   forall o h g l be fds (devflag : bool) (devs : list (N * N * N)) pay dev rest r cut rem ss1 ss2 f2 g1 t lim,
   let rs := RDef l be c_MesgNumFileId fds devflag devs :: RData l pay dev :: rest in
-  stream_wf rs = true -> no_time_quirk rs = true -> denote rs = Some ss1 ->
+  stream_wf rs = true -> denote rs = Some ss1 ->
   start_file h g (hd dummy_msg (ss_msgs ss1)) = Some (f2, g1) ->
-  rec_wf r = true -> record_time_ok ss1 r = true -> denote_record ss1 r = Some ss2 ->
+  rec_wf r = true -> denote_record ss1 r = Some ss2 ->
   ser_record r = cut ++ rem -> rem <> [] ->
   (List.length (ser_records rs ++ cut) < lim)%nat ->
   exists e x sf,
@@ -96,21 +96,14 @@ Theorem data_prog_counts_on_failure :
     counts_between o ss1 ss2 (finalize_unknown o sf).
 Proof.
   intros o h g l be fds devflag devs pay dev rest r cut rem ss1 ss2 f2 g1 t lim rs
-         Hwf Hq Hden Hstart Hwfr Hqr Hdr Hser Hrem Hlim.
+         Hwf Hden Hstart Hwfr Hdr Hser Hrem Hlim.
   set (r1 := RDef l be c_MesgNumFileId fds devflag devs) in *. set (r2 := RData l pay dev) in *.
   unfold rs in *. cbn [stream_wf forallb] in Hwf.
   apply andb_prop in Hwf. destruct Hwf as [Hwf1 Hwf]. apply andb_prop in Hwf. destruct Hwf as [Hwf2 Hwf].
   fold (stream_wf rest) in Hwf.
-  unfold denote in Hden. unfold no_time_quirk in Hq.
-  change (r1 :: r2 :: rest) with ([r1; r2] ++ rest) in Hden, Hq.
+  unfold denote in Hden.
+  change (r1 :: r2 :: rest) with ([r1; r2] ++ rest) in Hden.
   rewrite denote_from_app in Hden. destruct (denote_from ss_init [r1; r2]) as [ssb|] eqn:Eb; [|discriminate].
-  assert (Hq12 : no_time_quirk_from ss_init [r1; r2] = true /\ no_time_quirk_from ssb rest = true).
-  { cbn [app no_time_quirk_from] in Hq |- *. cbn [denote_from] in Eb.
-    destruct (denote_record ss_init r1) as [ssa|]; [|discriminate].
-    destruct (denote_record ssa r2) as [ssb'|]; [|discriminate]. inversion Eb; subst ssb'.
-    apply andb_prop in Hq. destruct Hq as [Ha Hq]. apply andb_prop in Hq. destruct Hq as [Hb Hq].
-    rewrite Ha, Hb. split; [reflexivity|exact Hq]. }
-  destruct Hq12 as [Hqa Hqb].
   destruct (denote_from_msgs _ _ _ Hden) as [ms Hms].
   assert (Hhd : hd dummy_msg (ss_msgs ss1) = hd dummy_msg (ss_msgs ssb)).
   { rewrite Hms. cbn [denote_from] in Eb.
@@ -139,7 +132,7 @@ Proof.
     with (ast_at (ser_record r1 ++ ser_record r2) (ser_records rest ++ cut) t 0 lim)
     by (unfold ast_at; now rewrite <- !app_assoc).
   destruct (prologue_ok o h g l be fds devflag devs pay dev ssb f2 g1 (ser_records rest ++ cut) t lim
-              Hwf1 Hwf2 Eb Hqa Hstart ltac:(fold r1 r2; lia))
+              Hwf1 Hwf2 Eb Hstart ltac:(fold r1 r2; lia))
     as (sb & ft & Hrun & HIb).
   fold r1 r2 in Hrun. fold n in Hrun.
   pose proof (dk_prologue o (ast_at (ser_record r1 ++ ser_record r2) (ser_records rest ++ cut) t 0 lim)
@@ -148,9 +141,9 @@ Proof.
   rewrite Hrun. cbn [rbind]. rewrite ast_at_nil.
   assert (Hfuel : (List.length rest < S lim)%nat) by (pose proof (records_le_bytes rest); lia).
   pose proof (truncated_outcome rest r cut rem o _ f2 g1 ft sb ssb ss1 ss2 t n lim (S lim)
-                HIb Hwf Hqb Hden Hwfr Hqr Hdr Hser Hrem ltac:(unfold n; lia) Hfuel) as Hout.
+                HIb Hwf Hden Hwfr Hdr Hser Hrem ltac:(unfold n; lia) Hfuel) as Hout.
   pose proof (counts_on_failure_file rest r cut rem o _ f2 g1 ft sb ssb ss1 ss2 t n lim (S lim)
-                HIb Hdk Hwf Hqb Hden Hwfr Hqr Hdr Hser Hrem ltac:(unfold n; lia)) as Hcnt.
+                HIb Hdk Hwf Hden Hwfr Hdr Hser Hrem ltac:(unfold n; lia)) as Hcnt.
   destruct (run_a (decode_file_data o (S lim)) (mk_ast (ser_records rest ++ cut) t n lim) sb)
     as [a x' s'|e x' s'|e x' s'|w|]; try contradiction.
   - exfalso. unfold n in Hout. lia.
@@ -165,9 +158,9 @@ Theorem Decode_counts_on_failure :
   header_wf h ->
   rd_data rd = hdr_bytes h ++ ser_records rs ++ cut ->
   (List.length (ser_records rs ++ cut) < N.to_nat (h_dsize h))%nat ->
-  stream_wf rs = true -> no_time_quirk rs = true -> denote rs = Some ss1 ->
+  stream_wf rs = true -> denote rs = Some ss1 ->
   start_file h g (hd dummy_msg (ss_msgs ss1)) = Some (f2, g1) ->
-  rec_wf r = true -> record_time_ok ss1 r = true -> denote_record ss1 r = Some ss2 ->
+  rec_wf r = true -> denote_record ss1 r = Some ss2 ->
   ser_record r = cut ++ rem -> rem <> [] ->
   (List.length (rd_data rd) + List.length (rd_sched rd) < fuel)%nat ->
   exists e file' rd' g' q,
@@ -178,13 +171,13 @@ Theorem Decode_counts_on_failure :
      exists lf, f_unkf file' = Some lf /\ forall m k, cnt2 m k (ss_unkf ss1) <= cnt2 m k lf <= cnt2 m k (ss_unkf ss2)).
 Proof.
   intros o g rd fuel h l be fds devflag devs pay dev rest r cut rem ss1 ss2 f2 g1 rs
-         Hwfh Hd Hlim Hwf Hq Hden Hstart Hwfr Hqr Hdr Hser Hrem Hf.
+         Hwfh Hd Hlim Hwf Hden Hstart Hwfr Hdr Hser Hrem Hf.
   destruct (decode_header_ok h fuel rd (ser_records rs ++ cut) Hwfh Hd Hf) as (rd1 & DH & D1 & T1 & E1 & P1 & M1).
   assert (Hf1 : (List.length (rd_data rd1) + List.length (rd_sched rd1) < fuel)%nat) by lia.
   set (limit := N.to_nat (h_dsize h)) in *.
   set (crc := crc_write crc_new (hdr_bytes h)) in *.
   destruct (data_prog_counts_on_failure o h g l be fds devflag devs pay dev rest r cut rem ss1 ss2 f2 g1 (rd_term rd1) limit
-              Hwf Hq Hden Hstart Hwfr Hqr Hdr Hser Hrem Hlim) as (e & x & sf & Hrun & Hcnt).
+              Hwf Hden Hstart Hwfr Hdr Hser Hrem Hlim) as (e & x & sf & Hrun & Hcnt).
   fold rs in Hrun.
   pose proof (buffered_run_abstract (data_prog o false (S limit)) rd1 limit crc fuel (init_dstate (new_file h) g) Hf1) as Hobs.
   unfold start_a in Hobs. rewrite D1, Hrun in Hobs. unfold start_c in Hobs. cbn [observe] in Hobs.
